@@ -1,12 +1,15 @@
 """Shared driver code for the /verif checks (TLC runs, harness build/replay, trace
 validation, evidence files, known findings)."""
-import json, os, re, shutil, subprocess, sys, time, hashlib, threading, collections
+import json, os, re, shutil, subprocess, sys, time, hashlib, threading, collections, itertools
 
 VERIF = os.path.dirname(os.path.dirname(os.path.abspath(__file__)))
 REPO = os.environ.get("VERIF_REPO", "/repo")
 SPEC = os.path.join(VERIF, "spec")
 OUT = os.path.join(VERIF, "out")
 NCPU = os.cpu_count() or 4
+
+
+_MD_COUNTER = itertools.count(1)
 
 
 class Inconclusive(Exception):
@@ -57,7 +60,7 @@ def run_tlc(workdir, module, cfg, env=None, workers=None, timeout=1800, extra=()
     """Run TLC; returns dict(out=[printed JSON values], generated, distinct, ok, raw).
     With sink (a callable), printed values are handed to it one by one instead of being collected
     (large scenario corpora are streamed to a file, not held in memory)."""
-    md = os.path.join(workdir, "md-%s-%d" % (cfg.replace(".cfg", ""), int(time.time() * 1000) % 100000))
+    md = os.path.join(workdir, "md-%s-%d-%d" % (cfg.replace(".cfg", ""), os.getpid(), next(_MD_COUNTER)))   # unique per TLC process (shards run in parallel)
     tmp = os.path.join(workdir, "tmp")
     os.makedirs(tmp, exist_ok=True)
     e = dict(os.environ)
